@@ -19,7 +19,7 @@ def c11(rec):
         if b and not b.get("sigError"):
             out.append({"sig": {"prop": "C11", "kind": "foreign-signature-accepted", "url": url}, "what": f"{url}: a transaction signed by another account's key passed signature verification (code {b.get('code')})"})
     elif m == "oracle":
-        (k, v), = rec["op"].items()
+        (k, v), = (rec["op"].items() if isinstance(rec["op"], dict) else [(rec["op"], {})])
         pre = dict(rec["pre"]["feeds"])
         post = dict(rec["post"]["feeds"])
         if not rec["ok"] and rec["pre"] != rec["post"]:
@@ -39,7 +39,7 @@ def c11(rec):
         if not rec["ok"] and rec["pre"] != rec["post"]:
             out.append({"sig": {"prop": "C11", "kind": "failed-message-changed-state", "op": "wasmPostFile"}, "what": "failed contract post changed state"})
     elif m == "storage" and rec["op"] != "block":
-        (k, v), = rec["op"].items()
+        (k, v), = (rec["op"].items() if isinstance(rec["op"], dict) else [(rec["op"], {})])
         if k in ("initProvider", "shutdownProvider", "setProviderIP", "setProviderKeybase", "setProviderTotalSpace", "addClaimer", "removeClaimer"):
             p0, p1 = dict(rec["pre"]["providers"]), dict(rec["post"]["providers"])
             for a in set(p0) | set(p1):
@@ -53,7 +53,7 @@ def c11(rec):
                     out.append({"sig": {"prop": "C11", "kind": "foreign-file-deleted"}, "what": f"deleteFile by {v['creator']} removed a file owned by {key[1]}"})
     elif m == "rns":
         # a primary-name record is a resource of its account: only that account's own message moves it
-        (k, v), = rec["op"].items()
+        (k, v), = (rec["op"].items() if isinstance(rec["op"], dict) else [(rec["op"], {})])
         canon = dict(rec["pre"].get("canon") or [])
         p0, p1 = dict(rec["pre"]["primary"]), dict(rec["post"]["primary"])
         signer = v["creator"]
@@ -62,7 +62,7 @@ def c11(rec):
                 out.append({"sig": {"prop": "C11", "kind": "foreign-primary-name-touched", "op": k},
                             "what": f"{k} signed by {signer} changed the primary name of {a}: {p0.get(a)} -> {p1.get(a)}"})
     elif m == "notif":
-        (k, v), = rec["op"].items()
+        (k, v), = (rec["op"].items() if isinstance(rec["op"], dict) else [(rec["op"], {})])
         if k == "delete":
             import json as _j
             signer = v["creator"].lower()
